@@ -23,7 +23,10 @@ def run(chk, repo, tier):
     chk.clause('C17-e', 'the original plane is untouched (all writes go to a deep copy)', 2)
     chk.clause('C17-f', 'util.rescale: output shape ceil(n*scale) in all branches; interpolation coordinates in (row, col) order', 7)
     chk.clause('C17-g', 'util.rescale: interpolated image times the power normalisation (iff unitary) times the interpolated mask', 2)
+    chk.clause('C17-h', 'util.rescale works for every array type its callers hand it (the integer mask a rescaled plane '
+                        'carries included): floating-point-only operations see floating-point arrays', 2)
     chk.not_decided += ['interpolation accuracy, power/PSF preservation, identity at scale 1 (numerical)']
+    dtype_closure(chk, repo, 'C17-h')
 
     from .extra_rules import rescale_unitary_rule
     rescale_unitary_rule(chk, repo, 'C17-g')
@@ -188,6 +191,75 @@ def run(chk, repo, tier):
                 okc = okc and good
             chk.ob('C17-f', 'U-axis', fu.key, f'all {len(mc)} map_coordinates calls get [row coordinates, column coordinates] [{tag}]',
                    okc, '', fu.loc(mc[0].node))
+
+
+def dtype_closure(chk, repo, clause):
+    """Plane.rescale stores an integer mask and hands plane._mask to util.rescale: a rescaled plane can only be rescaled
+    again (or a plane with an integer mask at all) if util.rescale never applies a floating-point-only operation -
+    np.finfo of the array type, an in-place update with a floating factor - to an array that still has its input's type."""
+    from .. import dtypes
+    fr = repo.func('plane.Plane.rescale')
+    _, rp, _ = analyse(repo, fr)
+    stored_int = passes_mask = False
+    for p in returns(rp):
+        for e in p.events:
+            if e.kind == 'write' and e.data.get('how') == 'attrstore' and e.data.get('attr') == '_mask':
+                if 'int' in dtypes.kinds(e.data['value']) and dtypes.kinds(e.data['value']) != dtypes.ANY:
+                    stored_int = True
+                for a in nf.value_atoms(e.data['value']):
+                    if is_app(a, 'call:util.rescale'):
+                        img = bound_of(a).get('img')
+                        if img is not None and any(x[0] == 'attr' and x[2] in ('_mask', 'mask') for x in nf.value_atoms(img)):
+                            passes_mask = True
+    fu = repo.func('util.rescale')
+    bad_finfo, bad_inplace, n_f, n_i = [], [], 0, 0
+    for cfg in ({'mask': NONE}, {'mask': S('mask')}):
+        _, paths, _ = analyse(repo, fu, config=cfg)
+        for p in returns(paths):
+            known = dtypes.constraints(p.conds)
+            for e in p.events:
+                if e.kind == 'call' and str(e.data.get('callee', '')).endswith('numpy.finfo') and e.data.get('args'):
+                    n_f += 1
+                    arg = e.data['args'][0]
+                    aa = arg.single_atom() if isinstance(arg, Poly) else None
+                    if aa is not None and aa[0] == 'attr' and aa[2] == 'dtype':
+                        ks = dtypes.kinds(Poly.atom(aa[1]), known)
+                        wrong = sorted(ks - dtypes.FLOATING)
+                        if wrong and ks != dtypes.ANY or (ks == dtypes.ANY and _inherits_param(aa[1], known)):
+                            bad_finfo.append(f'np.finfo of an array that is {"/".join(wrong)} when the input is '
+                                             f'[{conds_str(p)[:80]}] @ {e.loc()}')
+                if e.kind == 'write' and e.data.get('how') == 'augassign' and e.data.get('op') in ('mul', 'div', 'add', 'sub'):
+                    n_i += 1
+                    tk = dtypes.kinds(e.target, known) if isinstance(e.target, Poly) else dtypes.ANY
+                    rk = dtypes.kinds(e.data.get('value'), known)
+                    narrow = {k for k in tk if k in ('bool', 'int')}
+                    if narrow and (rk & dtypes.FLOATING) and _inherits_param(e.target.single_atom(), known):
+                        bad_inplace.append(f'in-place {e.data.get("op")} of a floating factor into an array that is '
+                                           f'{"/".join(sorted(narrow))} when the input is [{conds_str(p)[:80]}] @ {e.loc()}')
+    who = 'Plane.rescale stores an integer mask and passes plane._mask as img' if stored_int and passes_mask else \
+        'lentil.rescale is public: integer images are legal input'
+    chk.ob(clause, 'T-dtype', fu.key, 'np.finfo is only taken of floating-point arrays', (not bad_finfo) if n_f else None,
+           ('; '.join(sorted(set(bad_finfo))[:2]) + f' ({who})') if bad_finfo else f'{n_f} finfo call(s) on the paths; {who}', fu.loc())
+    chk.ob(clause, 'T-dtype', fu.key, 'in-place updates with floating factors only hit floating-point arrays',
+           (not bad_inplace) if n_i else None,
+           ('; '.join(sorted(set(bad_inplace))[:2]) + f' ({who})') if bad_inplace else f'{n_i} in-place update(s) on the paths', fu.loc())
+
+
+def _inherits_param(atom, known):
+    """the array still has the type of an (unconstrained) parameter"""
+    from .. import dtypes
+    seen = [atom]
+    for _ in range(12):
+        a = seen[-1]
+        if a is None:
+            return False
+        if a[0] == 'sym':
+            return known.get(a, dtypes.ANY) - dtypes.FLOATING != frozenset()
+        if a[0] == 'app' and a[1] in dtypes.SAME_AS_FIRST | {'real'} and a[2] and isinstance(a[2][0], Poly):
+            seen.append(a[2][0].single_atom())
+            continue
+        return False
+    return False
 
 
 def mask_rescale_siblings(chk, repo, clause, rets=None):
